@@ -77,8 +77,15 @@ def h_uniform_image(ex):
          zc[0] if zc else ex.real('az', lo + 1, hi - 1)]
     b = [ex.real('bx', -500, 500), ex.real('by', -500, 500),
          zc[1] if zc else ex.real('bz', lo + 1, hi - 1)]
-    dx, dy = b[0] - a[0], b[1] - a[1]
-    ex.assume(dx * dx + dy * dy >= 1.0)
+    if ex.case.get('vertical'):
+        # receiver exactly above/below the source (rho == 0): the image construction
+        # degenerates to a vertical line
+        b[0], b[1] = a[0], a[1]
+        dx, dy = 0.0, 0.0
+        ex.assume((b[2] - a[2]) * (b[2] - a[2]) >= 1.0)
+    else:
+        dx, dy = b[0] - a[0], b[1] - a[1]
+        ex.assume(dx * dx + dy * dy >= 1.0)
 
     class T(rt.UniformRayTracer):
         max_reflections = kmax
@@ -134,7 +141,7 @@ def h_uniform_image(ex):
                     wx, wy = f * dx, f * dy
                 ex.close([xs[i], ys[i]], [wx, wy],
                          'reflection-point-on-the-unfolded-straight-line:' + tag, tol=1e-6)
-            if zc:
+            if zc or ex.case.get('vertical'):
                 sgn = 1.0 if first_up else -1.0
                 L = np.sqrt(dx * dx + dy * dy + S * S)
                 ex.close(p.path_length, L, 'length==distance-to-mirrored-receiver:' + tag, tol=1e-6)
@@ -308,11 +315,14 @@ HARNESSES = [
     Harness('uniform-image', h_uniform_image, _mods, encodes=_enc, twins=('no-offset',),
             cases={'quick': [{'kmax': 1, '_twins': 1}, {'kmax': 0}, {'kmax': 2},
                              {'kmax': 1, 'range': (-1024.0, 0.0), 'depths': (-256.0, -256.0)},
-                             {'kmax': 1, 'range': (-1024.0, 0.0), 'depths': (-512.0, -512.0)}],
+                             {'kmax': 1, 'range': (-1024.0, 0.0), 'depths': (-512.0, -512.0)},
+                             {'kmax': 1, 'vertical': True}],
                    'thorough': [{'kmax': 1, '_twins': 1}, {'kmax': 0}, {'kmax': 2}, {'kmax': 3},
                                 {'kmax': 1, 'range': (-1024.0, 0.0), 'depths': (-256.0, -256.0)},
                                 {'kmax': 1, 'range': (-1024.0, 0.0), 'depths': (-512.0, -512.0)},
-                                {'kmax': 1, 'range': (-1024.0, 0.0), 'depths': (-768.0, -768.0)}]},
+                                {'kmax': 1, 'range': (-1024.0, 0.0), 'depths': (-768.0, -768.0)},
+                                {'kmax': 1, 'vertical': True}, {'kmax': 2, 'vertical': True},
+                                {'kmax': 0, 'vertical': True}]},
             budget={'quick': {'wall_s': 300, 'query_timeout_ms': 60000, 'max_paths': 500},
                     'thorough': {'wall_s': 1200, 'query_timeout_ms': 120000, 'max_paths': 2000}}),
     Harness('unfold-lemma', h_unfold_lemma, _mods, encodes=_enc, twins=('square',),
@@ -343,6 +353,15 @@ HARNESSES = [
                     'thorough': {'wall_s': 900, 'query_timeout_ms': 60000, 'max_paths': 2000}}),
 ]
 
+def _search_harness():
+    from harness import C02
+    h = [x for x in C02.HARNESSES if x.name == 'layered-search'][0]
+    return Harness('layered-search', h.fn, h.modules, cases=h.cases, twins=h.twins,
+                   encodes=h.encodes, budget=h.budget, doc=h.fn.__doc__)
+
+
+HARNESSES.append(_search_harness())
+
 BOUNDS = {
     'quick': {'endpoints': 'symbolic x,y in [-500,500], depths strictly inside the range '
               '(horizontal separation >= 1 m)', 'index': 'symbolic in [1.1,2]',
@@ -350,9 +369,11 @@ BOUNDS = {
               'ice range': '[-1000,0]'},
     'thorough': {'reflections': '0..3'},
 }
-OUTSIDE = ["the layered solution search itself (91-angle scan and nested root finding) and "
-           "hence the count/identity of layered solutions and 'splitting reproduces the "
-           "unsplit medium'; radial distances inside graded layers (closed forms: C01) are "
+OUTSIDE = ["the layered solution search's 91-angle scan and nested root finding (layered-search "
+           "runs the real enumeration, trimming, de-duplication and assembly of chains with the "
+           "trial trace replaced by its contract for uniform layers without total internal "
+           "reflection) and hence 'splitting reproduces the unsplit medium' as a statement about "
+           "values; radial distances inside graded layers (closed forms: C01) are "
            "arbitrary non-negative values in the layered-chain harness",
-           "endpoints exactly above one another (rho = 0)"]
+           "endpoints exactly above one another (rho = 0) for the layered tracer"]
 ASSUMPTIONS = ["arctan2 as a point on the unit circle"]
